@@ -149,7 +149,7 @@ def main():
     term = tr.stmts(list(fn.body), {"offset": "Z", "whence": "whence"}, 1)
     text = ("(** GENERATED by harness/tx/tx_iter.py from the working tree of the repository — do not edit.\n"
             "    Regenerated (and rewritten only if changed) on every check run. *)\n"
-            "From Coq Require Import ZArith Bool.\nFrom TI Require Import model.Iter.\n"
+            "From Coq Require Import ZArith Bool List.\nFrom TI Require Import model.Iter.\n"
             "Open Scope Z_scope.\nOpen Scope bool_scope.\n\n"
             "(** what one call of [seek] does: raise FinalizedIteratorError, raise ValueError, or\n"
             "    [renderable_data.update(frame_offset=, seek_whence=)] and return *)\n"
@@ -159,6 +159,47 @@ def main():
             "    v_frame_offset = self._renderable_data.frame_offset *)\n"
             "Definition src_seek (v_closed : bool) (v_frame_count : option Z) (v_frame_offset : Z)\n"
             "           (v_offset : Z) (v_whence : whence) : seek_res :=\n" + term + ".\n")
+    # ---- set_frame_duration (translated) and the position of the finalized check in every control method
+    CLOSED = "if self._closed:\n    raise FinalizedIteratorError('This iterator has been finalized') from None"
+
+    def body_of(name):
+        gs = [n for n in cls.body if isinstance(n, ast.FunctionDef) and n.name == name]
+        need(len(gs) == 1, f"RenderIterator.{name}: {len(gs)} definitions")
+        return [st for st in gs[0].body if not (isinstance(st, ast.Expr) and isinstance(st.value, ast.Constant)
+                                                and isinstance(st.value.value, str))], gs[0]
+    positions = []
+    for name in ("seek", "set_frame_duration", "set_padding", "set_render_args", "set_render_size"):
+        b, _ = body_of(name)
+        idx = [k for k, st in enumerate(b) if ast.unparse(st) == CLOSED]
+        need(len(idx) == 1, f"RenderIterator.{name}: expected exactly one finalized check "
+                            f"`if self._closed: raise FinalizedIteratorError(...)`, found {len(idx)}")
+        positions.append((name, idx[0]))
+    b, g = body_of("set_frame_duration")
+    need([a.arg for a in g.args.args] == ["self", "duration"], "RenderIterator.set_frame_duration: parameter list changed")
+    # statements other than the finalized check, in order: the range check, the assignment
+    rest = [ast.unparse(st) for st in b if ast.unparse(st) != CLOSED]
+    need(rest == ["if isinstance(duration, int) and duration <= 0:\n    raise arg_value_error_range('duration', duration)",
+                  "self._renderable_data.duration = duration"],
+         f"RenderIterator.set_frame_duration: body outside the subset: {rest}")
+    sfd = []
+    for st in b:
+        u = ast.unparse(st)
+        if u == CLOSED:
+            sfd.append("if v_closed then FFinalized else")
+        elif u.startswith("if isinstance(duration, int)"):
+            sfd.append("if (match v_duration with DStatic ms => ms <=? 0 | DDynamic => false end) then FValue else")
+        else:
+            sfd.append("FAssign v_duration")
+    need(sfd[-1] == "FAssign v_duration", "RenderIterator.set_frame_duration: the assignment is not the last statement")
+    text += ("\n(** render/_iterator.py: RenderIterator.set_frame_duration(duration), statement by statement\n"
+             "    ([DStatic ms]: an int; [DDynamic]: FrameDuration.DYNAMIC) *)\n"
+             "Inductive sfd_res := FFinalized | FValue | FAssign (d : dur).\n"
+             "Definition src_set_frame_duration (v_closed : bool) (v_duration : dur) : sfd_res :=\n  "
+             + "\n  ".join(sfd) + ".\n"
+             "\n(** position (0 = first statement) of the finalized check in each control method *)\n"
+             "Definition src_finalized_check_position : list (nat * nat) := (* method index, position *)\n  "
+             + "(" + " :: ".join(f"({k}, {pos})%nat" for k, (_, pos) in enumerate(positions)) + " :: nil).\n"
+             "(* method index: " + ", ".join(f"{k} = {nm}" for k, (nm, _) in enumerate(positions)) + " *)\n")
     if not OUT.exists() or OUT.read_text() != text:
         OUT.parent.mkdir(parents=True, exist_ok=True)
         OUT.write_text(text)
